@@ -296,4 +296,181 @@ theorem buildL_sb : ∀ as : List Ast, SafeExprL as → ∀ x ∈ buildL as, SB 
 end
 
 end Ast
+/-! ### no sub-proposition of a built model is pre-fixed: every compound's own bounds are (0,1) -/
+
+namespace P
+
+theorem Free01L_iff : ∀ ks : List P, Free01L ks ↔ ∀ k ∈ ks, Free01 k
+  | [] => by simp [Free01L]
+  | k :: ks => by simp [Free01L, Free01L_iff ks]
+
+theorem free01_node (i) (b : Bnd) (s v) (ks : List P) (m) (hb : b.lo = 0 ∧ b.hi = 1) (h : ∀ k ∈ ks, Free01 k) :
+    Free01 (.node i b s v ks m) := by
+  simp only [Free01]; exact ⟨hb, (Free01L_iff ks).2 h⟩
+
+theorem free01_kids (i b s v) (ks : List P) (m) (h : Free01 (.node i b s v ks m)) :
+    (b.lo = 0 ∧ b.hi = 1) ∧ ∀ k ∈ ks, Free01 k := by
+  simp only [Free01] at h; exact ⟨h.1, (Free01L_iff ks).1 h.2⟩
+
+mutual
+theorem free01_negate : ∀ p, Free01 p → Free01 (negate p)
+  | .leaf i b, _ => by simp [negate, Free01]
+  | .node i b s v ks m, h => by
+      have ⟨hb, hk⟩ := free01_kids i b s v ks m h
+      have hsorted : ∀ k ∈ sortById ks, Free01 k := fun k hk' => hk k ((sortById_perm ks).mem_iff.1 hk')
+      have hnp := free01_negPairs ks hk
+      have hnegs : ∀ k ∈ (sortPairs (negPairs ks)).map (·.2), Free01 k := by
+        intro k hk'
+        obtain ⟨p, hp, rfl⟩ := List.mem_map.1 hk'
+        exact hnp p ((List.mergeSort_perm _ _).mem_iff.1 hp)
+      have hgrp : ∀ l : List P, (∀ a ∈ l, a.isLeaf = true) → Free01 (negGroup l) := fun l hl => by
+        apply free01_node _ _ _ _ _ _ ⟨rfl, rfl⟩
+        intro a ha; have := hl a ha
+        cases a with
+        | leaf => simp [Free01]
+        | node => simp [isLeaf] at this
+      have hatoms : ∀ a ∈ (sortById ks).filter (·.isLeaf), a.isLeaf = true := fun a ha => (List.mem_filter.1 ha).2
+      have hnb : (if m.gen then (⟨0, 1⟩ : Bnd) else b).lo = 0 ∧ (if m.gen then (⟨0, 1⟩ : Bnd) else b).hi = 1 := by
+        split <;> simp [hb]
+      simp only [negate]
+      split
+      · split
+        · exact free01_node _ _ _ _ _ _ hnb hnegs
+        · split
+          · apply free01_node _ _ _ _ _ _ hnb
+            intro k hk'
+            rcases List.mem_append.1 hk' with h' | h'
+            · exact hnegs k h'
+            · simp at h'; subst h'; exact hgrp _ hatoms
+          · split
+            · apply free01_node _ _ _ _ _ _ hnb
+              intro k hk'
+              rcases List.mem_append.1 hk' with h' | h'
+              · exact hnegs k h'
+              · obtain ⟨a, ha, rfl⟩ := List.mem_map.1 h'
+                exact hgrp [a] (by intro x hx; simp at hx; rw [hx]; exact hatoms a ha)
+            · exact free01_node _ _ _ _ _ _ hnb hsorted
+      · exact free01_node _ _ _ _ _ _ hnb hsorted
+theorem free01_negPairs : ∀ ks : List P, (∀ k ∈ ks, Free01 k) → ∀ p ∈ negPairs ks, Free01 p.2
+  | [], _ => by simp [negPairs]
+  | .leaf i b :: ks, h => by
+      simpa [negPairs] using free01_negPairs ks (fun k hk => h k (List.mem_cons_of_mem _ hk))
+  | .node i b s v ks' m :: ks, h => by
+      intro p hp
+      simp only [negPairs, List.mem_cons] at hp
+      rcases hp with rfl | hp
+      · exact free01_negate _ (h _ (List.mem_cons_self ..))
+      · exact free01_negPairs ks (fun k hk => h k (List.mem_cons_of_mem _ hk)) p hp
+end
+
+theorem free01_mkAtLeast (v : Int) (ks : List P) (oid : Option String) (sgn cls) (h : ∀ k ∈ ks, Free01 k) :
+    Free01 (mkAtLeast v ks (varOf oid) sgn cls) := by
+  have hsorted : ∀ k ∈ sortById ks, Free01 k := fun k hk => h k ((sortById_perm ks).mem_iff.1 hk)
+  unfold mkAtLeast varOf
+  cases oid with
+  | none => exact free01_node _ _ _ _ _ _ ⟨rfl, rfl⟩ hsorted
+  | some i => exact free01_node _ _ _ _ _ _ ⟨rfl, rfl⟩ hsorted
+
+theorem free01_mkAtLeast_none (v : Int) (ks : List P) (sgn cls) (h : ∀ k ∈ ks, Free01 k) :
+    Free01 (mkAtLeast v ks none sgn cls) := free01_mkAtLeast v ks none sgn cls h
+
+theorem free01_orderArgs (l : List (Bool × P)) (h : ∀ x ∈ l, Free01 x.2) : ∀ k ∈ orderArgs l, Free01 k := by
+  intro k hk; obtain ⟨x, hx, rfl⟩ := mem_orderArgs l k hk; exact h x hx
+
+theorem free01_setCond (p : P) (cid : String) (h : Free01 p) : Free01 (setCond p cid) := by
+  cases p with
+  | leaf => simp [setCond, Free01]
+  | node i b s v ks m => simpa [setCond, Free01] using h
+
+theorem free01_mkAll (args : List (Bool × P)) (oid cls) (h : ∀ x ∈ args, Free01 x.2) : Free01 (mkAll args oid cls) := by
+  unfold mkAll; exact free01_mkAtLeast _ _ _ _ _ (free01_orderArgs args h)
+
+theorem free01_mkAny (args : List (Bool × P)) (oid cls) (h : ∀ x ∈ args, Free01 x.2) : Free01 (mkAny args oid cls) := by
+  unfold mkAny; exact free01_mkAtLeast _ _ _ _ _ (free01_orderArgs args h)
+
+theorem free01_mkXor (args : List (Bool × P)) (oid cls) (h : ∀ x ∈ args, Free01 x.2) : Free01 (mkXor args oid cls) := by
+  unfold mkXor
+  apply free01_mkAll
+  intro x hx
+  simp only [List.mem_cons, List.not_mem_nil, or_false] at hx
+  rcases hx with rfl | rfl
+  · exact free01_mkAtLeast_none 1 _ none _ (free01_orderArgs args h)
+  · show Free01 (mkAtMost 1 (orderArgs args) none)
+    unfold mkAtMost; exact free01_mkAtLeast_none _ _ _ _ (free01_orderArgs args h)
+
+theorem free01_mkXNor (args : List (Bool × P)) (oid) (h : ∀ x ∈ args, Free01 x.2) : Free01 (mkXNor args oid) := by
+  unfold mkXNor
+  apply free01_setCond
+  apply free01_mkAny
+  intro x hx
+  simp only [List.mem_cons, List.not_mem_nil, or_false] at hx
+  rcases hx with rfl | rfl
+  · exact free01_negate _ (free01_mkAtLeast_none 1 _ none _ (free01_orderArgs args h))
+  · show Free01 (negate (mkAtMost 1 (orderArgs args) none))
+    unfold mkAtMost; exact free01_negate _ (free01_mkAtLeast_none _ _ _ _ (free01_orderArgs args h))
+
+theorem free01_mkNot (isAtom : Bool) (a : Bool × P) (h : Free01 a.2) : Free01 (mkNot isAtom a) := by
+  unfold mkNot
+  split
+  · exact free01_negate _ (free01_mkAll [a] none .all (by intro x hx; simp at hx; rw [hx]; exact h))
+  · exact free01_negate _ h
+
+theorem free01_mkImply (cAtom : Bool) (c d : Bool × P) (oid) (hc : Free01 c.2) (hd : Free01 d.2) :
+    Free01 (mkImply cAtom c d oid) := by
+  unfold mkImply
+  apply free01_setCond
+  apply free01_mkAny
+  intro x hx
+  simp only [List.mem_cons, List.not_mem_nil, or_false] at hx
+  rcases hx with rfl | rfl
+  · exact free01_mkNot cAtom c hc
+  · exact hd
+
+end P
+
+namespace Ast
+open P
+
+mutual
+/-- no sub-proposition of a model built from the safe grammar is pre-fixed -/
+theorem build_free01 : ∀ a : Ast, SafeExpr a → Free01 (build a)
+  | .var i b, _ => by simp [build, Free01]
+  | .str i, _ => by simp [build, Free01]
+  | .atLeast v as oid sgn, h => by
+      have h1 : SafeExprL as := (by simpa [SafeExpr] using h : SafeExprL as ∧ _).1
+      simp only [build]; exact free01_mkAtLeast _ _ _ _ _ (free01_orderArgs _ (buildL_free01 as h1))
+  | .atMost v as oid, h => by
+      have h1 : SafeExprL as := (by simpa [SafeExpr] using h : SafeExprL as ∧ _).1
+      simp only [build, mkAtMost]; exact free01_mkAtLeast _ _ _ _ _ (free01_orderArgs _ (buildL_free01 as h1))
+  | .all as oid, h => by
+      simp only [build]; exact free01_mkAll _ _ _ (buildL_free01 as (by simpa [SafeExpr] using h))
+  | .any as oid, h => by
+      simp only [build]; exact free01_mkAny _ _ _ (buildL_free01 as (by simpa [SafeExpr] using h))
+  | .xor as oid e, h => by
+      have h1 : SafeExprL as := (by simpa [SafeExpr] using h : SafeExprL as ∧ _).1
+      simp only [build]; exact free01_mkXor _ _ _ (buildL_free01 as h1)
+  | .xnor as oid, h => by
+      simp only [build]; exact free01_mkXNor _ _ (buildL_free01 as (by simpa [SafeExpr] using h))
+  | .imply c d oid, h => by
+      have ⟨h1, h2⟩ : SafeExpr c ∧ SafeExpr d := by simpa [SafeExpr] using h
+      simp only [build]; exact free01_mkImply _ _ _ _ (build_free01 c h1) (build_free01 d h2)
+  | .not a, h => by
+      simp only [build]; exact free01_mkNot _ _ (build_free01 a (by simpa [SafeExpr] using h))
+  | .ccAny .., h => by simp [SafeExpr] at h
+  | .ccXor .., h => by simp [SafeExpr] at h
+  | .stingy as oid, h => by
+      simp only [build]; exact free01_mkAll _ _ _ (buildL_free01 as (by simpa [SafeExpr] using h))
+theorem buildL_free01 : ∀ as : List Ast, SafeExprL as → ∀ x ∈ buildL as, Free01 x.2
+  | [], _ => by simp [buildL]
+  | a :: as, h => by
+      have ⟨h1, h2⟩ : SafeExpr a ∧ SafeExprL as := by simpa [SafeExprL] using h
+      intro x hx
+      simp only [buildL, List.mem_cons] at hx
+      rcases hx with rfl | hx
+      · exact build_free01 a h1
+      · exact buildL_free01 as h2 x hx
+end
+
+end Ast
+
 end Puan
